@@ -30,6 +30,7 @@ type E2ECase struct {
 	BodyLen   int       `json:"body_len"`
 	PrimeGET  bool      `json:"prime_get"` // for non-GET methods: a storable GET of the same path is stored first
 	Location  bool      `json:"location"`
+	Via416    bool      `json:"via_416"` // GET only: the first request carries a Range that the origin answers with 416 and the opposite freshness headers; the proxy's retry gets the scripted answer
 }
 
 func noBody(st int) bool { return st == 204 || st == 205 || st == 304 }
@@ -54,6 +55,19 @@ var subE2E = ev.Register("storable-e2e",
 			h := w.Header()
 			status := c.Status
 			fr := c.Fresh
+			if c.Via416 && r.Header.Get("Range") != "" {
+				// the 416 carries the opposite kind of freshness information: it must not decide about the retried answer
+				opposite := "max-age=600"
+				if ref.ReadFreshness(c.Fresh.CC, c.Fresh.Expires, time.Now()).Storable(c.Ignore) != ref.MustNot {
+					opposite = "no-store"
+				}
+				h.Set("Cache-Control", opposite)
+				h.Set("Content-Range", "bytes */"+strconv.Itoa(c.BodyLen))
+				e.Status = 416
+				e.Commit()
+				w.WriteHeader(416)
+				return
+			}
 			if r.Header.Get("X-Verif-Req") == "prime" {
 				status, fr = 200, gen.Fresh{CC: []string{"max-age=600"}}
 			}
@@ -110,6 +124,9 @@ var subE2E = ev.Register("storable-e2e",
 
 		do := func(id, method, target string) (*px.Resp, *ev.Failure) {
 			req := px.Req{Method: method, Host: org.Addr(), Target: target, ReqID: id}
+			if c.Via416 && id == "r1" && method == "GET" {
+				req.Headers = []px.H{{K: "Range", V: "bytes=999999-"}}
+			}
 			if method == "POST" || method == "PUT" || method == "PATCH" {
 				req.Body = "payload-" + id
 			}
@@ -149,6 +166,19 @@ var subE2E = ev.Register("storable-e2e",
 			if f != nil {
 				return f
 			}
+			if c.Via416 && i == 1 && c.Method == "GET" {
+				// the ranged first request: 416, a slice or the full answer are all fine here (C07's subject); what counts is requests 2 and 3
+				o.Class("first-request-via-416")
+				if len(org.ByReqID(id)) == 0 {
+					return ev.Failf("store-e2e.first-not-forwarded", "the first request never reached the origin")
+				}
+				if resp.Status == 200 && c.Status == 200 {
+					first = resp.Body
+				} else {
+					first = nil
+				}
+				continue
+			}
 			if resp.Status != c.Status {
 				return ev.Failf(fmt.Sprintf("store-e2e.status-changed:%d", c.Status), "%s: origin answers %d, client got %d", id, c.Status, resp.Status)
 			}
@@ -172,8 +202,11 @@ var subE2E = ev.Register("storable-e2e",
 					return ev.Failf(sig, "%s GET (Cache-Control %q, Expires %q, ignore=%v force=%v, backend %s, %d-byte body): storable and fresh but the origin was contacted %d time(s), X-Cache %q",
 						id, c.Fresh.CC, c.Fresh.Expires, c.Ignore, c.Force, c.Backend, c.BodyLen, len(entries), resp.Header.Get("X-Cache"))
 				}
-				if !bytes.Equal(resp.Body, first) {
+				if first != nil && !bytes.Equal(resp.Body, first) {
 					return ev.Failf("store-e2e.reused-body-differs", "%s: HIT body differs from the stored response", id)
+				}
+				if first == nil {
+					first = resp.Body
 				}
 			default:
 				if hasBody && len(entries) > 0 && !bodyOfAny(resp.Body, entries, c.BodyLen) && !bytes.Equal(resp.Body, first) {
@@ -222,6 +255,7 @@ func drawE2E(t *rapid.T) E2ECase {
 		BodyLen:   rapid.SampledFrom([]int{0, 1, 50, 50, 3000, 70000}).Draw(t, "len"),
 		PrimeGET:  rapid.Bool().Draw(t, "prime"),
 		Location:  rapid.Bool().Draw(t, "location"),
+		Via416:    rapid.IntRange(0, 4).Draw(t, "via416") == 0,
 	}
 	if rapid.IntRange(0, 3).Draw(t, "plain-storable") == 0 {
 		// keep the simplest storable shapes well represented
